@@ -1,4 +1,8 @@
 ------------------------------ MODULE InjectGen ------------------------------
 EXTENDS Inject, SequencesExt, Json, IOUtils
-ASSUME JsonSerialize(IOEnv.VERIF_OUT, [k \in DOMAIN Dom |-> SetToSeq(Dom[k])])
+SeqOfSets(q) == [k \in DOMAIN q |-> SetToSeq(q[k])]
+ASSUME JsonSerialize(IOEnv.VERIF_OUT,
+  [dom |-> [k \in DOMAIN Dom |-> SetToSeq(Dom[k])],
+   strata |-> [k \in DOMAIN Strata |-> SeqOfSets(Strata[k])],
+   framed |-> [i \in DOMAIN FramedStrata |-> [k \in DOMAIN FramedStrata[i] |-> SetToSeq(FramedStrata[i][k])]]])
 =============================================================================
